@@ -590,6 +590,33 @@ func allCases(thorough bool, c codec) []testCase {
 			}
 		}
 	}
+	// (5c) tuples that share storage without being the same value: a tuple and slices of it with
+	// the same start (t[:k]), a later start (t[j:]) and the whole (t[:]) in one value, in every
+	// order and at three nesting positions (what identifies a tuple is not where it starts)
+	{
+		base := starlark.Tuple{starlark.MakeInt(1), starlark.MakeInt(2), starlark.MakeInt(3), starlark.String("x")}
+		views := []struct {
+			name string
+			t    starlark.Tuple
+		}{{"t", base}, {"t[:3]", base[:3]}, {"t[:2]", base[:2]}, {"t[:1]", base[:1]}, {"t[1:]", base[1:]}, {"t[1:3]", base[1:3]}, {"t[:]", base[:]}, {"t[:0]", base[:0]}}
+		for _, a := range views {
+			for _, b := range views {
+				a, b := a, b
+				add("list of "+a.name+" and "+b.name, "tuple-views", func() starlark.Value {
+					return starlark.NewList([]starlark.Value{a.t, b.t})
+				})
+				add("tuple of "+a.name+" and "+b.name+" and the first again", "tuple-views", func() starlark.Value {
+					return starlark.Tuple{a.t, b.t, a.t}
+				})
+				add("dict with values "+a.name+" and "+b.name, "tuple-views", func() starlark.Value {
+					d := starlark.NewDict(2)
+					d.SetKey(starlark.String("a"), a.t)
+					d.SetKey(starlark.String("b"), starlark.NewList([]starlark.Value{b.t}))
+					return d
+				})
+			}
+		}
+	}
 	// (6) aliasing graphs: three mutable containers with two reference slots each
 	kinds := [][3]string{{"list", "list", "list"}, {"dict", "list", "list"}, {"list", "dict", "dict"}, {"dict", "dict", "dict"}, {"list", "list", "host"}}
 	if !thorough {
